@@ -73,7 +73,7 @@ def run_script(name, argv, cwd):
         else:
             os.environ['HOME'] = old_home
         from pysmi import debug
-        debug.setLogger(debug.Debug())
+        debug.setLogger(0)
     return code, err.getvalue()
 
 
